@@ -80,14 +80,18 @@ func msg(n int) *eioparser.Packet {
 }
 
 type trial struct {
-	Pattern string // full | jitter | burst
-	Fault   string // none | slow | refuse | stall | cut-c2s | cut-s2c
-	CutAt   int64
+	Pattern  string // full | jitter | burst
+	Fault    string // none | slow | refuse | stall | cut-c2s | cut-s2c
+	CutAt    int64
+	Emitters int // goroutines per side calling Send (0/1 = one)
 }
 
 func (t trial) id() string {
-	if strings.HasPrefix(t.Fault, "cut") {
+	if strings.HasPrefix(t.Fault, "cut") || t.Fault == "heartbeat" {
 		return fmt.Sprintf("%s/%s@%d", t.Pattern, t.Fault, t.CutAt)
+	}
+	if t.Emitters > 1 {
+		return fmt.Sprintf("%s/%s/x%d", t.Pattern, t.Fault, t.Emitters)
 	}
 	return t.Pattern + "/" + t.Fault
 }
@@ -95,6 +99,18 @@ func (t trial) id() string {
 type outcome struct {
 	upgradeDone bool
 	wsBytes     [2]int64
+}
+
+// heartbeat: the websocket connection of the upgrade is held back and then slowed (20 ms per hop) so that the
+// UPGRADE packet is on its way exactly when the server's first PING (1 s after the handshake) is due. The
+// PING is then sitting in the polling queue at the swap: whatever is queued on the old transport at the swap
+// — heartbeats included — has to reach the peer, or the server declares a live peer dead one ping timeout
+// later. CutAt carries the lead (ms before the ping at which the websocket is released); trials sweep it.
+func serverConfigFor(t trial) *eio.ServerConfig {
+	if t.Fault == "heartbeat" {
+		return &eio.ServerConfig{UpgradeTimeout: 3 * time.Second, PingInterval: time.Second, PingTimeout: time.Second}
+	}
+	return &eio.ServerConfig{UpgradeTimeout: time.Second, PingInterval: 2 * time.Second, PingTimeout: 2 * time.Second}
 }
 
 func runTrial(run *vk.Run, t trial) (out outcome) {
@@ -108,7 +124,9 @@ func runTrial(run *vk.Run, t trial) (out outcome) {
 	srvSide, cliSide := newSide("server"), newSide("client")
 	var srvSock atomic.Value
 	sockReady := make(chan struct{}, 1)
+	var estAt atomic.Int64 // unix nanos of the server-side session creation (the heartbeat clock starts there)
 	srv, err := rig.NewEIOServer(func(s eio.ServerSocket) *eio.Callbacks {
+		estAt.CompareAndSwap(0, time.Now().UnixNano())
 		srvSock.Store(s)
 		select {
 		case sockReady <- struct{}{}:
@@ -116,14 +134,18 @@ func runTrial(run *vk.Run, t trial) (out outcome) {
 		}
 		return &eio.Callbacks{
 			OnPacket: srvSide.onPacket,
-			OnError:  func(err error) { srvSide.mu.Lock(); srvSide.errors = append(srvSide.errors, err.Error()); srvSide.mu.Unlock() },
+			OnError: func(err error) {
+				srvSide.mu.Lock()
+				srvSide.errors = append(srvSide.errors, err.Error())
+				srvSide.mu.Unlock()
+			},
 			OnClose: func(r eio.Reason, err error) {
 				srvSide.mu.Lock()
 				srvSide.closes = append(srvSide.closes, string(r))
 				srvSide.mu.Unlock()
 			},
 		}
-	}, &eio.ServerConfig{UpgradeTimeout: time.Second, PingInterval: 2 * time.Second, PingTimeout: 2 * time.Second})
+	}, serverConfigFor(t))
 	if err != nil {
 		run.Inconclusive(err.Error())
 		return
@@ -149,6 +171,17 @@ func runTrial(run *vk.Run, t trial) (out outcome) {
 		switch t.Fault {
 		case "slow":
 			c.SetDelay(4 * time.Millisecond)
+		case "heartbeat":
+			c.SetStall(true)
+			go func() {
+				est := t0
+				if v := estAt.Load(); v != 0 {
+					est = time.Unix(0, v)
+				}
+				time.Sleep(time.Until(est.Add(time.Second - time.Duration(t.CutAt)*time.Millisecond)))
+				c.SetDelay(20 * time.Millisecond)
+				c.SetStall(false)
+			}()
 		case "refuse":
 			c.Close()
 		case "stall":
@@ -164,9 +197,16 @@ func runTrial(run *vk.Run, t trial) (out outcome) {
 	var upgradeDone atomic.Bool
 	ccfg := &eio.ClientConfig{Transports: []string{"polling", "websocket"}, UpgradeTimeout: time.Second,
 		UpgradeDone: func(string) { upgradeDone.Store(true) }}
+	if t.Fault == "heartbeat" {
+		ccfg.UpgradeTimeout = 3 * time.Second
+	}
 	cli, err := eio.Dial(px.URL("/engine.io/"), &eio.Callbacks{
 		OnPacket: cliSide.onPacket,
-		OnError:  func(err error) { cliSide.mu.Lock(); cliSide.errors = append(cliSide.errors, err.Error()); cliSide.mu.Unlock() },
+		OnError: func(err error) {
+			cliSide.mu.Lock()
+			cliSide.errors = append(cliSide.errors, err.Error())
+			cliSide.mu.Unlock()
+		},
 		OnClose: func(r eio.Reason, err error) {
 			cliSide.mu.Lock()
 			cliSide.closes = append(cliSide.closes, string(r))
@@ -228,46 +268,59 @@ func runTrial(run *vk.Run, t trial) (out outcome) {
 	for i := range jit {
 		jit[i] = r.Intn(400)
 	}
-	sender := func(s *side, send func(...*eioparser.Packet)) {
-		n := 0
-		emit := func(k int) {
-			for i := 0; i < k; i++ {
-				n++
-				s.lastSent.Store(int64(n))
-				send(msg(n))
-				s.sent.Add(1)
-			}
-		}
-		after := 0
-		for n < 20000 && !closedNow() {
-			switch t.Pattern {
-			case "full":
-				emit(1)
-			case "jitter":
-				emit(1)
-				time.Sleep(time.Duration(jit[n%len(jit)]) * time.Microsecond)
-			case "burst":
-				// bursts released by events around the swap
-				select {
-				case <-wsSeen:
-					emit(40)
-				default:
+	// workers goroutines share one numbering: several emitters of one side are inside Send at the swap
+	sender := func(s *side, send func(...*eioparser.Packet), workers int) {
+		var next atomic.Int64
+		var inner sync.WaitGroup
+		for wk := 0; wk < workers; wk++ {
+			inner.Add(1)
+			go func() {
+				defer inner.Done()
+				emit := func(k int) {
+					for i := 0; i < k; i++ {
+						n := int(next.Add(1))
+						s.lastSent.Store(int64(n))
+						send(msg(n))
+						s.sent.Add(1)
+					}
 				}
-				emit(3)
-				time.Sleep(300 * time.Microsecond)
-			}
-			if over() {
-				after++
-				if after > 150 {
-					break
+				after := 0
+				for next.Load() < 20000 && !closedNow() {
+					switch t.Pattern {
+					case "full":
+						emit(1)
+					case "jitter":
+						emit(1)
+						time.Sleep(time.Duration(jit[int(next.Load())%len(jit)]) * time.Microsecond)
+					case "burst":
+						// bursts released by events around the swap
+						select {
+						case <-wsSeen:
+							emit(40)
+						default:
+						}
+						emit(3)
+						time.Sleep(300 * time.Microsecond)
+					}
+					if over() {
+						after++
+						if after > 150/workers+10 {
+							break
+						}
+					}
 				}
-			}
+			}()
 		}
+		inner.Wait()
 	}
 	var wg sync.WaitGroup
 	wg.Add(2)
-	go func() { defer wg.Done(); sender(cliSide, cli.Send) }()
-	go func() { defer wg.Done(); sender(srvSide, ss.Send) }()
+	workers := 1
+	if t.Emitters > 1 {
+		workers = t.Emitters
+	}
+	go func() { defer wg.Done(); sender(cliSide, cli.Send, workers) }()
+	go func() { defer wg.Done(); sender(srvSide, ss.Send, workers) }()
 	if !vk.Watchdog(60*time.Second, wg.Wait) {
 		run.Violation(vk.Violation{Sub: "send-hang", Fields: map[string]any{"fault": t.Fault},
 			What: "Send did not return within 60 s during trial " + t.id(), Witness: map[string]any{"trial": t.id(), "stacks": vk.DumpGoroutines("c07-send")}})
@@ -390,7 +443,7 @@ func runTrial(run *vk.Run, t trial) (out outcome) {
 	if len(sc)+len(cc) > 0 {
 		class = "died"
 	}
-	run.Distinct(fmt.Sprintf("%s/%s/upgraded=%v/%s", t.Pattern, t.Fault, out.upgradeDone, class))
+	run.Distinct(fmt.Sprintf("%s/%s/x%d/upgraded=%v/%s", t.Pattern, t.Fault, t.Emitters, out.upgradeDone, class))
 	if t.Fault == "slow" || t.Fault == "none" {
 		cliSide.mu.Lock()
 		run.Count("through_swap_trials", 1)
@@ -404,7 +457,7 @@ func runTrial(run *vk.Run, t trial) (out outcome) {
 
 func main() {
 	run := vk.Start("C07", "fault_enumeration")
-	run.Rule("trials = traffic pattern {full speed, jitter, bursts released when the websocket connection appears} x upgrade fault {none, slowed (traffic flows through the swap), refused, stalled (timeouts 1 s), " +
+	run.Rule("trials = traffic pattern {full speed, jitter, bursts released when the websocket connection appears} x upgrade fault {none, slowed (traffic flows through the swap), held back and slowed so that the server's first PING is queued on polling when the UPGRADE packet arrives (lead swept 60..130 ms), refused, stalled (timeouts 1 s), " +
 		"cut at every 8th byte of the websocket byte stream in each direction}; numbered text and binary messages (every 97th one 33..113 KB) in both directions from before the attempt until after it; " +
 		"distinct = (pattern, fault, client swapped?, connection alive/died)")
 	run.Assume("order across the swap is not demanded (C02 covers settled transports)", "a cut after the client swapped legitimately kills the connection: then only at-most-once and close-once are required",
@@ -422,6 +475,14 @@ func main() {
 					continue
 				}
 				trials = append(trials, trial{Pattern: p, Fault: f})
+				if (f == "none" || f == "slow") && p != "jitter" {
+					trials = append(trials, trial{Pattern: p, Fault: f, Emitters: 8})
+				}
+				if f == "slow" && p == "jitter" {
+					for lead := int64(60); lead <= 130; lead += 10 {
+						trials = append(trials, trial{Pattern: p, Fault: "heartbeat", CutAt: lead})
+					}
+				}
 			}
 		}
 	}
